@@ -502,12 +502,13 @@ func (s *Lexer) getNextToken() (*Token, error) {
 			current_state = SSTRING_DOUBLE
 		} else if current_state == SSTRING_D_ESCAPE {
 			if ch == 'x' {
-				next_ch := s.read()
-				next_next_ch := s.read()
-				if IsHex(next_ch) && IsHex(next_next_ch) {
-					buf.WriteRune(HexToAscii(next_ch, next_next_ch))
+				// look ahead without consuming: the reader can take back only one rune
+				hex, _ := s.r.Peek(2)
+				if len(hex) == 2 && IsHex(rune(hex[0])) && IsHex(rune(hex[1])) {
+					s.read()
+					s.read()
+					buf.WriteRune(HexToAscii(rune(hex[0]), rune(hex[1])))
 				} else {
-					s.unread(2)
 					buf.WriteRune('x')
 				}
 			} else {
@@ -518,12 +519,13 @@ func (s *Lexer) getNextToken() (*Token, error) {
 			current_state = SSTRING_SINGLE
 		} else if current_state == SSTRING_S_ESCAPE {
 			if ch == 'x' {
-				next_ch := s.read()
-				next_next_ch := s.read()
-				if IsHex(next_ch) && IsHex(next_next_ch) {
-					buf.WriteRune(HexToAscii(next_ch, next_next_ch))
+				// look ahead without consuming: the reader can take back only one rune
+				hex, _ := s.r.Peek(2)
+				if len(hex) == 2 && IsHex(rune(hex[0])) && IsHex(rune(hex[1])) {
+					s.read()
+					s.read()
+					buf.WriteRune(HexToAscii(rune(hex[0]), rune(hex[1])))
 				} else {
-					s.unread(2)
 					buf.WriteRune('x')
 				}
 			} else {
